@@ -60,8 +60,10 @@ def run_m(res):
     tv_engine.build()
     import gen, tvrun, tv, lang
     mir_path = dump_mir()
-    progs = [p for p in gen.corpus(res.seed, res.tier) if (p.meta["family"] in ("F1", "F2", "F8", "F9", "F12") and not p.meta["name"].startswith("f2_string")) or (p.meta["family"] == "F3" and int(p.meta["name"].split("_")[-1]) < (60 if res.tier == "quick" else 400))
-             or p.meta["name"].startswith(("f4_i32_sum", "f4_u8_sum", "f4_i32_nested", "f4_i32_early", "f4_i32_else_if", "f4_u16_else_if", "f4_i32_many", "f4_i64_if_value"))]
+    # scalar programs, control flow, script functions, records and enums (memory instructions, calls); families whose programs
+    # need host calls / strings / lists (CallRuntime, InitString, Clone, Drop, ..) are outside engine M by design
+    progs = [p for p in gen.corpus(res.seed, res.tier) if (p.meta["family"] in ("F1", "F2", "F4", "F5", "F8", "F9", "F10", "F12") and not p.meta["name"].startswith("f2_string"))
+             or (p.meta["family"] == "F3" and int(p.meta["name"].split("_")[-1]) < (60 if res.tier == "quick" else 400))]
     shutil.rmtree(tvrun.WORK, ignore_errors=True)
     os.makedirs(os.path.join(tvrun.WORK, "src"))
     os.makedirs(os.path.join(tvrun.WORK, "dump"))
@@ -109,8 +111,9 @@ def run_m(res):
     v_runs = v_skip = 0
     v_bad = []
     todo = [r["name"] for r in ok if not r.get("finding")][:1500]
+    model_paths = {r["name"]: r.get("completing_paths", {}) for r in ok}
     with ThreadPoolExecutor(NCPU) as ex:
-        for name, out_ in ex.map(lambda n: (n, _validate_pair(n, tv, tvalidate)), todo):
+        for name, out_ in ex.map(lambda n: (n, _validate_pair(n, tv, tvalidate, model_paths.get(n))), todo):
             v_runs += out_[0]
             v_skip += out_[1]
             v_bad += [(name, b) for b in out_[2]]
@@ -120,26 +123,29 @@ def run_m(res):
     kinds = {}
     for r in ok:
         import c20
-        for text in json.load(open(os.path.join(tvrun.WORK, "dump", r["name"] + ".json")))["lir"].get("pkg.main", []):
-            k = text.split(" ", 1)[0].split("(")[0]
-            kinds[k] = kinds.get(k, 0) + 1
+        for item_lir in json.load(open(os.path.join(tvrun.WORK, "dump", r["name"] + ".json")))["lir"].values():
+            for text in item_lir:
+                k = text.split(" ", 1)[0].split("(")[0]
+                kinds[k] = kinds.get(k, 0) + 1
     res.cov["mir"] = {
         "programs": len(results), "decided": len(ok), "unsupported": len(unsup),
         "unsupported_list": [{"program": r["name"], "why": r["reason"][:120]} for r in unsup[:25]],
         "solver_queries": sum(r["queries"] for r in results), "solver_s": round(sum(r["secs"] for r in results), 1),
         "mir_dump_s": _state.get("dump_s"), "wall_s": round(time.time() - t0, 1),
         "lir_instruction_instances_interpreted": kinds,
+        "evaluator_loud_on_every_path": len([r for r in ok if r.get("completing_paths") and not any(r["completing_paths"].values())]),
         "translator_validation": {"concrete_runs_real_evaluator_vs_real_jit": v_runs, "skipped_loud_stop_or_trap": v_skip, "mismatches": len(v_bad)},
-        "functions_encoded": ["lir::eval::eval (instruction arms Assign/Add/Sub/Mul/Div/Mod/FDiv/IntCmp/FloatCmp/Not/Negate, from the nightly MIR dump of /repo)",
-                              "lir::value::IrValue::{eq, as_bool, as_u64, as_i64, as_f64, switch_on}", "pkg.main of each program (emitted CLIF, engine T)"],
+        "functions_encoded": ["lir::eval::eval (instruction arms Assign/Add/Sub/Mul/Div/Mod/FDiv/IntCmp/FloatCmp/Not/Negate/Offset/Write/Read/Copy, from the nightly MIR dump of /repo)",
+                              "lir::value::IrValue::{eq, as_bool, as_u64, as_i64, as_f64, switch_on, as_vec, from_slice}, IrType::bytes (MIR bodies)",
+                              "eval::Memory as tv/c20.py MemModel (decided against the real Memory by the Kani harnesses c20_memory_*); Jump/Switch/Call/Return and eval's prologue modelled after eval.rs", "pkg.main of each program (emitted CLIF, engine T)"],
         "profiles": ["overflow-checks=on (dev)", "overflow-checks=off (release)"],
         "sample": [{"program": r["name"], "profiles": r["profiles"]} for r in ok[:4]],
     }
     # programs with control flow / calls are outside by design; an instruction arm that used to be interpretable and no longer
     # is (a call or statement the interpreter does not model) must not count as "held"
-    by_design = ("LIR instruction Switch", "LIR instruction Call", "LIR instruction Jump", "LIR instruction CallRuntime", "LIR instruction Copy",
-                 "LIR instruction Write", "LIR instruction Read", "LIR instruction Offset", "LIR instruction Initialize", "LIR instruction Clone",
-                 "LIR instruction Drop", "LIR instruction Eq", "LIR instruction InitString")
+    by_design = ("LIR instruction CallRuntime", "LIR instruction Initialize", "LIR instruction Clone", "LIR instruction Drop", "LIR instruction Eq",
+                 "LIR instruction InitString", "LIR instruction FunctionAddress", "LIR instruction ConstantAddress",
+                 "entry function takes or returns a non-scalar", "path budget exceeded")
     for r in unsup:
         if not any(b in r["reason"] for b in by_design):
             res.inconclusive.append(f"engine M: {r['name']}: {r['reason'][:200]}")
@@ -152,7 +158,7 @@ def run_m(res):
     return results
 
 
-def _validate_pair(name, tv, tvalidate):
+def _validate_pair(name, tv, tvalidate, model_paths=None):
     prog = _PROGS[name]
     entry = [x for x in prog.fns if x.name == "main"][0]
     vs = tvalidate.vectors(prog, 2)
@@ -177,6 +183,10 @@ def _validate_pair(name, tv, tvalidate):
             skipped += 1
             continue
         runs += 1
+        if model_paths and model_paths.get("on") == 0 and model_paths.get("off") == 0:
+            # the model of the evaluator stops loudly on every input, the real evaluator completed on this one
+            bad.append({"args": [hex(a) for a in args], "eval": ev + " (the encoding says: loud stop on every input)", "jit": jit})
+            continue
         try:
             e_i, j_i = int(ev, 16), int(jit, 16)
         except (TypeError, ValueError):
